@@ -354,6 +354,14 @@ func (x *fx) havocAllMem(tagp string) {
 			for _, r := range x.localRefs {
 				x.assume(fmt.Sprintf("(= (select %s %s) (select %s %s))", nv, r, ov, r))
 			}
+			// so are objects allocated here whose address has not left the function yet
+			if tagp == "call" {
+				for _, ha := range x.heapAllocs {
+					if x.notYetEscaped(ha, x.curInstr) {
+						x.assume(fmt.Sprintf("(= (select %s %s) (select %s %s))", nv, ha.ref, ov, ha.ref))
+					}
+				}
+			}
 			// so are variables captured only by closures that this callee neither is nor receives
 			for _, c := range x.cellRefs {
 				if !x.calleeReaches(c) {
@@ -366,19 +374,50 @@ func (x *fx) havocAllMem(tagp string) {
 	pre := x.curMem
 	x.curMem = h
 	x.noteHavocAll()
-	if keeps := x.c.CallKeeps["*"]; len(keeps) > 0 && x.keepAllRegs == nil {
+	if keeps := x.c.CallKeeps["*"]; len(keeps) > 0 && !x.keepAllInit {
+		x.keepAllInit = true
 		env := x.paramEnv(x.entryMem)
 		for _, e := range keeps {
-			x.keepAllRegs = append(x.keepAllRegs, x.regionsOf(e, env)...)
+			func() {
+				// an expression over locals does not bind at entry: it is
+				// evaluated at each call instead (where it binds)
+				defer func() {
+					if r := recover(); r != nil {
+						if _, ok := r.(specErr); !ok {
+							panic(r)
+						}
+						x.keepAllLocal = append(x.keepAllLocal, e)
+					}
+				}()
+				x.keepAllRegs = append(x.keepAllRegs, x.regionsOf(e, env)...)
+			}()
 		}
 	}
-	for _, r := range x.keepAllRegs {
+	regs := x.keepAllRegs
+	if len(x.keepAllLocal) > 0 && x.curInstr != nil {
+		x.curMem = pre
+		env := x.instrEnv(x.curInstr)
+		for _, e := range x.keepAllLocal {
+			func() {
+				defer func() {
+					if r := recover(); r != nil {
+						if _, ok := r.(specErr); !ok {
+							panic(r)
+						}
+					}
+				}()
+				regs = append(regs[:len(regs):len(regs)], x.regionsOf(e, env)...)
+			}()
+		}
+		x.curMem = h
+	}
+	for _, r := range regs {
 		oldV, newV := x.resolve(pre, r.mem), x.resolve(x.curMem, r.mem)
 		if oldV != newV {
 			x.assume(x.keepRegion(r, newV, oldV))
 		}
 	}
-	if len(x.keepAllRegs) > 0 {
+	if len(regs) > 0 {
 		x.assumptions["no unmodelled callee changes "+strings.Join(x.c.CallKeepSrc["*"], ", ")+" (keepsall)"] = true
 	}
 }
